@@ -450,6 +450,18 @@ def oracle_c01(w: World) -> Optional[str]:
             p = o.parent
             if p is not None and not any(c is o for c in getattr(p, "contents", [])):
                 return f"{w.label(o)}.parent is {w.label(p)} but it is not among {w.label(p)}'s children"
+    # elements the harness no longer tracks (everything beneath a decompose()d element): a destroyed element has no link left at all,
+    # and one that was beneath it but escaped destruction must not name a parent that does not list it (a subtree wiped half-way)
+    for o in getattr(w, "keep", []):
+        if id(o) in seen:
+            continue
+        if getattr(o, "_decomposed", False):
+            # (decompose() empties the element's __dict__: a destroyed element does not even HAVE link attributes)
+            if any(getattr(o, a, None) is not None for a in ("parent", "next_sibling", "previous_sibling", "next_element", "previous_element")) \
+                    or getattr(o, "contents", None):
+                return f"destroyed element {str(o)[:20]!r} still has links"
+        elif o.parent is not None and not any(c is o for c in getattr(o.parent, "contents", [])):
+            return f"element {str(o)[:20]!r} (beneath a destroyed element) names a parent that does not list it"
     return None
 
 
@@ -805,6 +817,11 @@ def gen_op(rng, w: World, stats, string_objects=True) -> Optional[str]:
                 return f"cd:{rng.choice(cand)[0]}"
         if k == "de" and attached and rng.random() < 0.4:
             l, o = rng.choice(attached)
+            # a subtree with an EMPTY string in its middle (falsy, yet an element like any other) is the interesting one to destroy
+            holed = [(l2, o2) for l2, o2 in attached if isinstance(o2, Tag) and any(str(x) == "" and not isinstance(x, Tag) for x in subtree(o2)[1:-1])]
+            if holed and rng.random() < 0.6:
+                l, o = rng.choice(holed)
+                stats["de:empty-string-inside"] += 1
             return f"de:{l}"
         if k == "sm" and tags and not getattr(w, "twin", False) and not getattr(w, "se_used", False):
             return f"sm:{rng.choice(tags)[0]}"
